@@ -225,7 +225,7 @@ func init() {
 		}
 		fam := &vf.Family{
 			Name:   "expressions",
-			Bounds: "all well-formed expressions of weight <=5 (quick) / <=6 (thorough) over list/vector (0-3 elements), map (0-2 entries), set (0-2 members), quote prefix, atoms incl. strings and raw strings containing bracket characters, comments containing ')'; each: every token-boundary cut, each closer appended, each closer replaced, a second expression (complete, or still open in 7 ways) appended",
+			Bounds: "all well-formed expressions of weight <=5 (quick) / <=6 (thorough) over list/vector (0-3 elements), map (0-2 entries), set (0-2 members), quote prefix, atoms incl. strings and raw strings containing bracket characters, comments containing ')'; each: every token-boundary cut, each closer appended, each closer inserted at every token boundary, each closer replaced, a second expression (complete, or still open in 7 ways) appended",
 			Setup:  func(t string) { tier = t },
 			N:      func(t string) int64 { tier = t; return gOf().Count(0, wOf()) },
 			Describe: func(i int64) string { return strconv.Quote(strings.Join(toksOf(gOf().Unrank(0, i)), " ")) },
@@ -280,6 +280,14 @@ func init() {
 					bad = append(bad, c+" "+full)
 				}
 				bad = append(bad, full+" a", full+" "+full)
+				// a closing bracket of any kind inserted before any later token (one closer too many: never
+				// well formed, never completable)
+				for pos := 1; pos < len(toks); pos++ {
+					for _, c := range []string{")", "]", "}"} {
+						ins := append(append(append([]string{}, toks[:pos]...), c), toks[pos:]...)
+						bad = append(bad, join(ins))
+					}
+				}
 				// a complete expression followed by a second one that is still open: more than one
 				// expression, and no appended closer can make it one (the REPL must not keep reading)
 				for _, open := range []string{"(", "(c", "[1 (2", "{:a", "#{", "'(", "(c) (d"} {
